@@ -326,6 +326,11 @@ def r6_single_door(cx):
     cx.check("init-decrypt-opens", ok and len(cd) == 1, site_of(dec), "InitState::decrypt propagates the failure of CryptoCore::decrypt (AEAD gate)")
 
 
+def _c18_r3(cx):
+    from . import c18
+    return c18.r3_own_key_trusted_by_default(cx)
+
+
 RULES = [
     ("C01.R1", r1_verify_before_accept, "verify-before-accept: function calling verify is a signature gate; key flows from trusted keys"),
     ("C01.R2", r2_signed_range, "signed range covers parsed fields: [0..position()] after the field loop"),
@@ -333,6 +338,7 @@ RULES = [
     ("C01.R4", r4_error_class, "CryptoInitFatal is not constructible pre-verification on the datagram path"),
     ("C01.R5", r5_responder_stored_if_verified, "pending_inits.insert only for verified responder / local dial; no reply on reject"),
     ("C01.R6", r6_single_door, "single door to the peer map behind Initialized* <- Success <- gate+decrypt"),
+    ("C01.R7", _c18_r3, "the trusted set is the configured keys; the own key is trusted only when none is configured (= C18.R3)"),
 ]
 
 LEVEL_TEXT = ("Static necessary conditions decided on MIR for every path: the function calling Ed25519 verify returns Ok only behind "
